@@ -61,7 +61,7 @@ KUNITS['K-KERN'] = [H(k['name'], False,
                       bound='concrete lengths %s%s; symbolic contents and index; offsets {0,1,7}' % (k['lens'], (', scalar ' + str(k['scalar'])) if k['scalar'] else ''),
                       refusal=bool(k.get('refusal')), tier=k['tier'], covers=False, timeout='30m',
                       functions=['src/octets.rs ' + k['kernel']]) for k in _KERN]
-KJOBS['K-KERN'] = 16
+KJOBS['K-KERN'] = 12
 
 KUNITS['K-SLABMEM'] = [H('symbol_slab::verif_hooks::kani_slab::slab_%s%s' % (op, m), False, covers=False, timeout='20m',
                           bound='3 symbols, symbol sizes %s, scalar 0x53, %s reorder mapping; portable kernels' % ('1..16' if op == 'add_assign' else '{1, 8, 15}', 'with' if m else 'without'),
